@@ -49,7 +49,7 @@ let parse_arg (tok : string) : arg =
   | "wc" -> AWChar (z_of_string v)
   | "c32" -> AChar32 (n_of_string v)
   | "b" -> ABool (v <> "0")
-  | "s" | "S" | "ss" -> AStr (bytes_of_hex v)
+  | "s" | "S" | "ss" | "n" -> AStr (bytes_of_hex v)   (* n: a user-defined type whose formatter renders this text *)
   | "f64" -> AFloat (float_oracle (Int64.of_string ("0x" ^ v)))
   | _ -> failwith ("drv_fmt: bad argument " ^ tok)
 
@@ -191,6 +191,7 @@ let extract_case a =
 let dispatch op a =
   match op with
   | "format" -> format_case a
+  | "writer_retry" -> ("OK retry", "OK retry")   (* safety only: the harness must come back (no read past the NUL, no hang) *)
   | "strtol" -> strtol_case a
   | "insert" -> insert_case a
   | "extract" -> extract_case a
